@@ -111,6 +111,10 @@ def trusted_scan(lines):
         names.append(("axiom(admit)", m.group(1)))
     for m in re.finditer(r"\buninterp\s+spec\s+fn\s+(\w+)", text):
         names.append(("uninterp", m.group(1)))
+    for l in lines:
+        m = re.search(r"//#\s*ENTRY-ASSUMPTION\s*(.*)$", l.text)
+        if m:
+            names.append(("entry-assumption(assume)", m.group(1).strip()))
     counts = dict(
         external_body=len(re.findall(r"#\[verifier::external_body\]", text)),
         admit=len(re.findall(r"\badmit\(\)", text)),
@@ -183,30 +187,41 @@ def run_probe(path, outdir, timeout=600):
     (`res is Err` for Result-returning functions, `false` otherwise) and `assert(false)` in front of every
     injected POST assertion.  Each of these must FAIL; one that verifies means the assumptions are
     inconsistent or a precondition is unsatisfiable."""
+    import copy
     meta, items = vxgen.parse_unit(path)
     pdir = os.path.join(outdir, "probe")
     probes = []
+    new_items = []
     for it in items:
+        new_items.append(it)
         if isinstance(it, vxgen.Extract):
             name = it.rename or it.fn
-            if not it.contract and not any((i["tag"] or "").startswith("POST") for i in it.injects):
+            has_post = any((i["tag"] or "").startswith("POST") for i in it.injects)
+            if not it.contract and not has_post:
                 continue  # helper extracted without contract: nothing claimed, nothing to probe
-            if any((i["tag"] or "").startswith("POST") for i in it.injects):
+            if has_post:
+                # asserts are not part of the contract seen by callers: probe in place
                 for i in it.injects:
                     if (i["tag"] or "").startswith("POST"):
                         tag = f"VACUITY-PROBE {name} before {i['tag']}"
                         i["lines"].insert(0, (f"        proof {{ assert(false); }} //# {tag}", 0))
                         probes.append(tag)
             else:
+                # a changed postcondition would leak into callers: probe on a renamed copy
+                cp = copy.deepcopy(it)
+                cp.rename = name + "__probe"
                 tag = f"VACUITY-PROBE {name} end"
                 probes.append(tag)
-                it.contract = strip_ensures(it.contract)
-                it.contract.append((f"    ensures PROBE_POST //# {tag}", 0))
-                it._probe = True
+                cp.contract = strip_ensures(cp.contract)
+                cp.contract.append((f"    ensures PROBE_POST //# {tag}", 0))
+                cp._probe = True
+                new_items.append(cp)
+    items = new_items
     # regenerate with modified items
     lines = []
     lines.append(vxgen.Line("#![allow(unused)]", "gen", "", 0))
     lines.append(vxgen.Line("use vstd::prelude::*;", "gen", "", 0))
+    lines.append(vxgen.Line("use std::collections::HashMap;", "gen", "", 0))
     lines.append(vxgen.Line("verus! {", "gen", "", 0))
     pitems = []
     for p in meta["prelude"]:
